@@ -348,6 +348,12 @@ func analyse(x *Exec) *RunResult {
 				cnt["final_state_checks"]++
 			}
 		}
+	}
+	// after Close (judged also when the run ended in a terminal state: the snapshot was taken)
+	for _, wr := range x.W {
+		if wr.W == nil {
+			continue
+		}
 		// after Close
 		if wr.ClosedRet > 0 {
 			for i := range wr.Snaps {
@@ -363,6 +369,14 @@ func analyse(x *Exec) *RunResult {
 				add(Violation{Kind: "channel-not-closed", Watcher: wr.Idx, Site: "Close", Detail: fmt.Sprintf("after Close: Events closed=%v Errors closed=%v", wr.EvClosed != 0, wr.ErrClosed != 0)})
 			}
 			cnt["close_checks"]++
+		}
+		if aborted && wr.ClosedRet > 0 {
+			for _, t := range x.S.Tasks() {
+				if t.Role == "reader" && !t.Exited() && x.S.Outcome == "deadlock" && mainDone(x) {
+					add(Violation{Kind: "task-leak", Watcher: wr.Idx, Site: siteSig(t.Site), Detail: "Close returned, the system is quiescent, and the reader goroutine is still alive: " + strings.Join(t.Site, " < ")})
+					break
+				}
+			}
 		}
 	}
 	if !aborted && x.sc.Family == "multi" {
@@ -480,6 +494,16 @@ func foreignCaller(x *Exec, wr *WatcherRec, step int) *APICall {
 		}
 	}
 	return nil
+}
+
+// mainDone reports whether the main task ran to its end (every scripted call returned).
+func mainDone(x *Exec) bool {
+	for _, t := range x.S.Tasks() {
+		if t.Role == "main" {
+			return t.Exited()
+		}
+	}
+	return false
 }
 
 func spellings(m *Model) []string {
